@@ -684,3 +684,18 @@ package controller
 //@ func (*Controller).isScaleOnStarve(c, nodeGroup, podRequests, nodeCapacity, untaintedNodes) (r)
 //@   requires nodeGroup != nil
 //@   ensures [C06] r <==> (nodeGroup.Opts.ScaleOnStarve && ((!(podRequests.LargestPendingCPU.MilliCPU == 0 && podRequests.LargestPendingCPU.Memory == 0) && podRequests.LargestPendingCPU.MilliCPU > nodeCapacity.LargestAvailableCPU.MilliCPU) || (!(podRequests.LargestPendingMemory.MilliCPU == 0 && podRequests.LargestPendingMemory.Memory == 0) && podRequests.LargestPendingMemory.Memory > nodeCapacity.LargestAvailableMemory.Memory)) && len(untaintedNodes) < nodeGroup.Opts.MaxNodes)
+
+// ---------------------------------------------------------------- node_group.go: which filters a group's listers are built from (C12, C14)
+
+// A labelled group lists the pods its label selects (nodeSelector or required In-affinity on key/value) and the
+// nodes carrying key=value; the default group lists the pods that select nothing and the nodes carrying its
+// own key=value. Stated where the filtered listers are made: the filter handed over IS that function literal,
+// capturing the group's own label key and value (the literals themselves are verified: C14).
+//@ func NewNodeGroupLister(allPodsLister, allNodesLister, nodeGroup) (r)
+//@   ensures r != nil
+//@   assert @NewFilteredPodsLister#1 [C12,C14] isclosure(#arg1, "controller.NewPodAffinityFilterFunc$1", nodeGroup.LabelKey, nodeGroup.LabelValue)
+//@   assert @NewFilteredNodesLister#1 [C12,C14] isclosure(#arg1, "controller.NewNodeLabelFilterFunc$1", nodeGroup.LabelKey, nodeGroup.LabelValue)
+//@ func NewDefaultNodeGroupLister(allPodsLister, allNodesLister, nodeGroup) (r)
+//@   ensures r != nil
+//@   assert @NewFilteredPodsLister#1 [C12,C14] isclosure(#arg1, "controller.NewPodDefaultFilterFunc$1")
+//@   assert @NewFilteredNodesLister#1 [C12,C14] isclosure(#arg1, "controller.NewNodeLabelFilterFunc$1", nodeGroup.LabelKey, nodeGroup.LabelValue)
